@@ -312,6 +312,7 @@ impl Multi {
         match build(&case.gc) {
             Built::U(af, labels) => self.run_generic(&af, &labels, case, &g, &fams, &list, rec),
             Built::S(af, labels) => self.run_generic(&af, &labels, case, &g, &fams, &list, rec),
+            Built::C(af, labels) => self.run_generic(&af, &labels, case, &g, &fams, &list, rec),
         }
     }
 }
